@@ -187,11 +187,13 @@ package block
 //@   property C01 C02 C03
 //@   requires [non-nil] header != nil && data != nil
 //@   ensures [valid-only-if] err == nil ==> ValidAgainst(lastState, header, data)
+//@   ensures [accepts-valid] ValidAgainst(lastState, header, data) && BasicOK(header) ==> err == nil
 
 //@ func (m *Manager) Validate(ctx, header, data) (err)
 //@   property C01 C02 C03
 //@   requires [non-nil] header != nil && data != nil
 //@   ensures [valid-only-if] err == nil ==> ValidAgainst(m.lastState, header, data)
+//@   ensures [accepts-valid] ValidAgainst(m.lastState, header, data) && BasicOK(header) ==> err == nil
 
 //@ func (m *Manager) updateState(ctx, s) (err)
 //@   property C01 C02 C04 C05
@@ -419,3 +421,111 @@ package block
 //@   requires [proposer-set] len(m.genesis.ProposerAddress) > 0
 //@   ensures [admit-data] r ==> signedData != nil && Signed(pkraw(signedData.Signer.PubKey.val), MarshalDataOf(TxsId(signedData.Data.Txs), DMetaOf(signedData.Data)), val(signedData.Signature))
 //@                       && AddrOf(pkraw(signedData.Signer.PubKey.val)) == val(m.genesis.ProposerAddress)
+
+// ---- C17: lazy and normal aggregation -------------------------------------------------------
+
+//@ func getRemainingSleep(start, interval) (r)
+//@   property C17
+//@   requires [started-earlier] start <= now()
+//@   ensures [positive] r > 0
+//@   ensures [bound] r <= max(interval, 1000000)
+//@   ensures [remaining] now() - start < interval ==> r == interval - (now() - start)
+//@   ensures [floor] now() - start >= interval ==> r == 1000000
+
+//@ func Manager.publishBlock(ctx) (err)
+//@   ensures [any] true
+
+//@ func (m *Manager) produceBlock(ctx, mode, lazyTimer, blockTimer) (err)
+//@   property C17
+//@   requires [timers] lazyTimer != nil && blockTimer != nil && lazyTimer != blockTimer
+//@   observe tn := call Now@1
+//@   observe pb := call publishBlock
+//@   observe g1 := call getRemainingSleep@1
+//@   observe g2 := call getRemainingSleep@2
+//@   modifies lazyTimer.resetTo, blockTimer.resetTo
+//@   ensures [published-once] pb.count == 1
+//@   ensures [start-before-publish] tn.count == 1 && tn.seq < pb.seq
+//@   ensures [error] err != nil ==> pb.res0 != nil && g1.count == 0 && g2.count == 0
+//@   ensures [timers-reset] err == nil ==> g1.count == 1 && g2.count == 1 && g1.arg0 == tn.res0 && g2.arg0 == tn.res0
+//@                       && g1.arg1 == m.config.Node.LazyBlockInterval.Duration && g2.arg1 == m.config.Node.BlockTime.Duration
+//@                       && lazyTimer.resetTo == g1.res0 && blockTimer.resetTo == g2.res0
+
+//@ func (m *Manager) lazyAggregationLoop(ctx, blockTimer) (err)
+//@   property C17
+//@   requires [timer] blockTimer != nil
+//@   observe pbk := call produceBlock
+//@   observe rst := call Reset
+//@   modifies m.txsAvailable, heap "model:Timer.resetTo"
+//@   loop 1 invariant [notify-sets-flag] recvCount("txNotifyCh") == 1 ==> m.txsAvailable && pbk.count == 0 && rst.count == 0
+//@   loop 1 invariant [lazy-timer-publishes] recvCount("lazyTimer.C") == 1 ==> pbk.count == 1 && m.txsAvailable == iter(m.txsAvailable)
+//@   loop 1 invariant [block-timer-flag] recvCount("blockTimer.C") == 1 && iter(m.txsAvailable) ==> pbk.count == 1 && !m.txsAvailable
+//@   loop 1 invariant [block-timer-idle] recvCount("blockTimer.C") == 1 && !iter(m.txsAvailable) ==> pbk.count == 0 && !m.txsAvailable
+//@                       && rst.count == 1 && rst.arg0 == blockTimer && rst.arg1 == m.config.Node.BlockTime.Duration
+//@   loop 1 invariant [one-case] recvCount("txNotifyCh") + recvCount("lazyTimer.C") + recvCount("blockTimer.C") <= 1 && pbk.count <= 1
+//@   ensures [error-ends] err != nil ==> pbk && pbk.res0 != nil
+
+//@ func (m *Manager) normalAggregationLoop(ctx, blockTimer) (err)
+//@   property C17
+//@   requires [timer] blockTimer != nil
+//@   observe pb := call publishBlock
+//@   observe tn := call Now
+//@   observe g := call getRemainingSleep
+//@   modifies m.txsAvailable, heap "model:Timer.resetTo"
+//@   loop 1 invariant [ignore-notify] recvCount("txNotifyCh") == 1 ==> pb.count == 0
+//@   loop 1 invariant [block-timer-publishes] recvCount("blockTimer.C") == 1 ==> pb.count == 1 && tn.seq < pb.seq && g.count == 1 && g.arg0 == tn.res0
+//@                       && g.arg1 == m.config.Node.BlockTime.Duration && blockTimer.resetTo == g.res0
+//@   loop 1 invariant [one-case] recvCount("txNotifyCh") + recvCount("blockTimer.C") <= 1 && pb.count <= 1
+
+//@ func (m *Manager) NotifyNewTransactions()
+//@   property C17
+//@   ensures [non-blocking] sendCount("txNotifyCh") <= 1
+
+// a notification that arrives while a block is being produced stays in the channel: nobody
+// else drains it
+//@ recvonly txNotifyCh in lazyAggregationLoop, normalAggregationLoop property C17
+
+// ---- C09: scanning the DA layer ----------------------------------------------------------------
+
+//@ func (m *Manager) fetchBlobs(ctx, daHeight) (res, err)
+//@   property C09 C16
+//@   requires [wiring] m.metrics != nil
+//@   observe rwh := call RetrieveWithHelpers
+//@   ensures [is-helper-result] rwh.count == 1 && rwh.arg3 == daHeight && res.Code == rwh.res0.Code
+//@   ensures [err-iff] err == nil <==> (res.Code != coreda.StatusError && res.Code != coreda.StatusHeightFromFuture)
+//@   ensures [future-msg] res.Code == coreda.StatusHeightFromFuture ==> msgHas(err, coreda.ErrHeightFromFuture)
+
+//@ func (m *Manager) handlePotentialHeader(ctx, bz, daHeight) (handled)
+//@   modifies m.headerCache.daInc, m.headerCache.daIncHas
+//@   ensures [any] true
+//@ func (m *Manager) handlePotentialData(ctx, bz, daHeight)
+//@   modifies m.dataCache.daInc, m.dataCache.daIncHas
+//@   ensures [any] true
+
+//@ func (m *Manager) processNextDAHeaderAndData(ctx) (err)
+//@   property C09
+//@   requires [wiring] m.metrics != nil && m.daHeight != nil && m.headerCache != nil && m.dataCache != nil
+//@   observe fb := call fetchBlobs
+//@   observe hph := call handlePotentialHeader
+//@   observe hpd := call handlePotentialData
+//@   modifies m.headerCache.daInc, m.headerCache.daIncHas, m.dataCache.daInc, m.dataCache.daIncHas
+//@   ensures [nil-means-fetched] err == nil ==> fb && fb.res1 == nil && fb.arg2 == m.daHeight.v
+//@   ensures [future-returns-at-once] fb && fb.res1 != nil && msgHas(fb.res1, coreda.ErrHeightFromFuture) ==> err != nil
+//@   ensures [cursor-untouched] m.daHeight.v == old(m.daHeight.v)
+//@   loop 1 invariant [same-height] daHeight == m.daHeight.v && m.daHeight.v == old(m.daHeight.v)
+//@   loop 1 invariant [err-accumulates] r >= 0 && (r > 0 ==> err != nil)
+//@   loop 2 invariant [each-blob] hph.count + hpd.count > 0 ==> len(bz) != 0 && hph.count == 1 && hph.arg2 == bz && hph.arg3 == daHeight
+//@                       && ((hpd.count == 1 && hpd.arg2 == bz && hpd.arg3 == daHeight) <==> !hph.res0) && hpd.count <= 1
+//@   loop 2 invariant [non-empty-handled] rangeindex >= 0 && rangeindex < len(blobsResp.Data) && len(blobsResp.Data[rangeindex]) != 0 ==> hph.count == 1
+//@   loop 2 invariant [same-height] daHeight == m.daHeight.v && m.daHeight.v == old(m.daHeight.v) && fb && fb.res1 == nil && fb.arg2 == daHeight
+
+//@ func (m *Manager) areAllErrorsHeightFromFuture(err) (r)
+//@   ensures [any] true
+
+//@ func (m *Manager) RetrieveLoop(ctx)
+//@   property C09
+//@   requires [wiring] m.metrics != nil && m.daHeight != nil && m.headerCache != nil && m.dataCache != nil && ctx != nil
+//@   observe pn := call processNextDAHeaderAndData
+//@   modifies m.daHeight.v, m.headerCache.daInc, m.headerCache.daIncHas, m.dataCache.daInc, m.dataCache.daIncHas
+//@   loop 1 invariant [advance-iff] pn.count == 1 ==> ((m.daHeight.v == U64Inc(iter(m.daHeight.v))) <==> (pn.res0 == nil || ctxDone(ctx)))
+//@   loop 1 invariant [never-skip] m.daHeight.v == iter(m.daHeight.v) || m.daHeight.v == U64Inc(iter(m.daHeight.v))
+//@   loop 1 invariant [one-try] pn.count <= 1
